@@ -53,7 +53,7 @@ class Result:
         return "Result(%s,%s,%s)" % (self.status, self.why, None if self.out is None else len(self.out))
 
 
-def run_decoder(fmt, data, argv=(), stdin=False, stdout=False, tmpdir=None, limit=60, in_name=None):
+def run_decoder(fmt, data, argv=(), stdin=False, stdout=False, tmpdir=None, limit=60, in_name=None, prefill=0):
     """Feed `data` to the decoder of `fmt` with option arguments `argv`.
 
     stdin/stdout=True use the tool's default streams (substituted in-process
@@ -69,6 +69,10 @@ def run_decoder(fmt, data, argv=(), stdin=False, stdout=False, tmpdir=None, limi
     out_path = os.path.join(tmpdir, "out" + model.EXT[fmt])
     if os.path.exists(out_path):
         os.remove(out_path)
+    if prefill and not stdout:
+        # the output file exists already and is longer than the image that will be written
+        with open(out_path, "wb") as f:
+            f.write(b"\xa5" * prefill)
     args = list(argv)
     old = (sys.stdin, sys.stdout, sys.stderr)
     outbuf = _OutBuf()
@@ -79,11 +83,15 @@ def run_decoder(fmt, data, argv=(), stdin=False, stdout=False, tmpdir=None, limi
             args.append(in_path)
             sys.stdin = _Std(io.BytesIO(b""))
         else:
+            if stdin == "dash":
+                args.append("-")  # the conventional name of standard input
             sys.stdin = _Std(io.BytesIO(data))
         if not stdout:
             args.append(out_path)
             sys.stdout = _Std(_OutBuf())
         else:
+            if stdout == "dash":
+                args.append("-")
             sys.stdout = _Std(outbuf)
         sys.stderr = _Std(_OutBuf())
         old_handler = signal.signal(signal.SIGALRM, _alarm)
